@@ -1,3 +1,158 @@
 import PysphVerif.Driver.Common
-/-! Line-protocol driver for C20 (stub: not built yet). -/
-def main : IO Unit := PysphVerif.Driver.loopPure (fun _ => "bad-op")
+import PysphVerif.Model.Needs
+/-!
+Line protocol for C20.  Values contain no blanks; names are identifiers.
+
+  T=<table>     `KEY:sym;sym|KEY:_|...`              (`_` = empty)
+  A=<arrays>    `name:prop;prop|name:_|...`
+  Q=<equations> `name~dest~sources~init~initpair~loop~loopall~postloop^...`
+                sources `-` = None or `a;b`; a method `-` = absent, `_` = no args, or `a;b`
+  P=<structure> groups separated by `/`: `F0,1` (equations by index into Q) or
+                `S0,1+2+_` (sub-groups separated by `+`)
+  S=<steppers>  `dest~cls~meth:arg;arg,meth:_~pystage;pystage^...`
+  L=<names>     `a;b`
+
+ops:
+  `check T A Q P`   verdict of the repaired `AccelerationEval.__init__` checks
+  `checkorig A Q P` verdict of the checks as on the pinned tree
+  `access T Q P`    `acc <arr.prop;...>` pointers the generated `compute` takes
+  `closure T L`     `clo <sym;...>` keys of `Group.precomputed`
+  `needs T Q`       `src=<..> dst=<..>` of `Group(Q).get_array_names()`
+  `steppers A S`    verdict of the stepper checks
+  `saccess S`       `acc <arr.prop;...>` pointers the generated integrator takes
+  `build T A Q P S` `ok` | `eq <verdict>` | `step <verdict>`
+-/
+namespace PysphVerif.Driver.C20
+open PysphVerif.Wire PysphVerif.Needs
+
+def splitL (sep : String) (s : String) : List String :=
+  if s = "_" then [] else s.splitOn sep
+
+def okName (s : String) : Bool :=
+  !s.isEmpty && s.toList.all (fun c => c.isAlphanum || c = '_')
+
+def names? (sep : String) (s : String) : Option (List Name) :=
+  let l := splitL sep s
+  if l.all okName then some l else none
+
+def parseTable (s : String) : Option Table :=
+  (splitL "|" s).mapM (fun e => match e.splitOn ":" with
+    | [k, v] => if okName k then (names? ";" v).map (fun l => (k, l)) else none
+    | _ => none)
+
+def parseArrays (s : String) : Option (List PArr) :=
+  (splitL "|" s).mapM (fun e => match e.splitOn ":" with
+    | [k, v] => if okName k then (names? ";" v).map (fun l => ({ name := k, props := l } : PArr))
+                else none
+    | _ => none)
+
+def optNames? (s : String) : Option (Option (List Name)) :=
+  if s = "-" then some none else (names? ";" s).map some
+
+def parseEqn (s : String) : Option Eqn :=
+  match s.splitOn "~" with
+  | [n, d, srcs, i, ip, l, la, pl] => do
+    if !(okName n && okName d) then none
+    let srcs ← optNames? srcs
+    if srcs = some [] then none
+    let i ← optNames? i
+    let ip ← optNames? ip
+    let l ← optNames? l
+    let la ← optNames? la
+    let pl ← optNames? pl
+    pure { name := n, dest := d, sources := srcs, mInit := i, mInitPair := ip, mLoop := l,
+           mLoopAll := la, mPostLoop := pl }
+  | _ => none
+
+def parseEqns (s : String) : Option (List Eqn) := (splitL "^" s).mapM parseEqn
+
+def idxList? (eqs : List Eqn) (s : String) : Option (List Eqn) :=
+  (splitL "," s).mapM (fun t => t.toNat? >>= fun i => eqs[i]?)
+
+def parseGroup (eqs : List Eqn) (s : String) : Option GroupT :=
+  match s.toList with
+  | 'F' :: rest => (idxList? eqs (String.ofList rest)).map GroupT.flat
+  | 'S' :: rest => ((String.ofList rest).splitOn "+").mapM (idxList? eqs) |>.map GroupT.sub
+  | _ => none
+
+def parseProgram (eqs : List Eqn) (s : String) : Option (List GroupT) :=
+  (splitL "/" s).mapM (parseGroup eqs)
+
+def parseMethod (s : String) : Option (Name × List Name) :=
+  match s.splitOn ":" with
+  | [m, a] => if okName m then (names? ";" a).map (fun l => (m, l)) else none
+  | _ => none
+
+def parseStepper (s : String) : Option Stepper :=
+  match s.splitOn "~" with
+  | [d, c, ms, py] => do
+    if !(okName d && okName c) then none
+    let ms ← (splitL "," ms).mapM parseMethod
+    let py ← names? ";" py
+    pure { dest := d, cls := c, methods := ms, pyStages := py }
+  | _ => none
+
+def parseSteppers (s : String) : Option (List Stepper) := (splitL "^" s).mapM parseStepper
+
+def showNames (l : List Name) : String := if l.isEmpty then "_" else ";".intercalate l
+
+def showErr (e : Name × List Name) : String := e.1 ++ ":" ++ showNames e.2
+
+def showVerdict : Verdict → String
+  | Verdict.ok => "ok"
+  | Verdict.invalidDest e d => s!"invalid-dest eq={e} dest={d}"
+  | Verdict.invalidSource e s => s!"invalid-source eq={e} src={s}"
+  | Verdict.missing e errs => s!"missing eq={e} errs=" ++
+      (if errs.isEmpty then "_" else "|".intercalate (errs.map showErr))
+
+def showSVerdict : SVerdict → String
+  | SVerdict.ok => "ok"
+  | SVerdict.invalidStepper n => s!"invalid-stepper name={n}"
+  | SVerdict.missing c d ns => s!"missing-stepper cls={c} dest={d} names={showNames ns}"
+
+def showPairs (l : List (Name × Name)) : String :=
+  "acc " ++ showNames (l.map (fun p => p.1 ++ "." ++ p.2))
+
+def handle (line : String) : String :=
+  match tokens line with
+  | [] => "bad-op"
+  | op :: rest =>
+    let kv := kvs rest
+    let tbl := (lookup kv "T") >>= parseTable
+    let arrs := (lookup kv "A") >>= parseArrays
+    let eqs := (lookup kv "Q") >>= parseEqns
+    let prog := eqs >>= fun q => (lookup kv "P") >>= parseProgram q
+    let stp := (lookup kv "S") >>= parseSteppers
+    let nkeys := kv.length
+    if nkeys != rest.length then "bad-op" else
+    match op, tbl, arrs, eqs, prog, stp with
+    | "check", some t, some a, some _, some p, none =>
+      if nkeys = 4 then showVerdict (checkProgram t a p) else "bad-op"
+    | "checkorig", none, some a, some _, some p, none =>
+      if nkeys = 3 then showVerdict (checkProgramOrig a p) else "bad-op"
+    | "access", some t, none, some _, some p, none =>
+      if nkeys = 3 then showPairs (programAccesses t p) else "bad-op"
+    | "closure", some t, none, none, none, none =>
+      (match (lookup kv "L") >>= names? ";" with
+       | some l => if nkeys = 2 then "clo " ++ showNames (closure t l) else "bad-op"
+       | none => "bad-op")
+    | "needs", some t, none, some q, none, none =>
+      if nkeys = 2 then
+        s!"src={showNames (groupSrcNames t q)} dst={showNames (groupDstNames t q)}"
+      else "bad-op"
+    | "steppers", none, some a, none, none, some s =>
+      if nkeys = 2 then showSVerdict (checkSteppers a s) else "bad-op"
+    | "saccess", none, none, none, none, some s =>
+      if nkeys = 1 then showPairs (stepperAccesses s) else "bad-op"
+    | "build", some t, some a, some _, some p, some s =>
+      if nkeys = 5 then
+        (match buildAll t a p s with
+         | Outcome.ok => "ok"
+         | Outcome.eqError v => "eq " ++ showVerdict v
+         | Outcome.stepError v => "step " ++ showSVerdict v)
+      else "bad-op"
+    | _, _, _, _, _, _ => "bad-op"
+
+end PysphVerif.Driver.C20
+
+def main : IO Unit := PysphVerif.Driver.loopPure PysphVerif.Driver.C20.handle
